@@ -88,7 +88,14 @@ def member_name(kind: str, base: str) -> str:
 
 
 def make_member(ids: Ids, rng, kind: str, base: str, is_async: bool, n_pre: int, n_post: int, n_snap: int,
-                forms=None, errs=None, params=None, shuffle=True) -> Dict[str, Any]:
+                forms=None, errs=None, params=None, shuffle=True, via_helper=None) -> Dict[str, Any]:
+    if via_helper is None:
+        via_helper = rng.random() < 0.12
+    if via_helper:
+        # contracts created through a helper function share one source location; lambdas cannot be re-parsed from there
+        forms = [f for f in (forms or ["def", "adef", "aw"]) if f != "lambda"] or ["def"]
+        if not is_async:
+            forms = [f for f in forms if f == "def"] or ["def"]
     real_kind = "method" if kind == "call" else kind
     if real_kind in ("init", "new", "pget", "pset", "pdel"):
         is_async = False
@@ -105,6 +112,9 @@ def make_member(ids: Ids, rng, kind: str, base: str, is_async: bool, n_pre: int,
             c["args"].remove("OLD")
         if "OLD" in c.get("eargs", []) and not snaps:
             c["eargs"].remove("OLD")
+    if via_helper:
+        for _dk, c in pres + posts:
+            c["via_helper"] = True
     if shuffle:
         # any interleaving in which every snapshot sits above (outside) at least one postcondition
         rest = pres + posts[1:] + snaps
